@@ -72,3 +72,17 @@ impl Zeroize for AffinePoint {
         self.inner.zeroize()
     }
 }
+
+// Verification hooks: raw access to the internal representative.
+#[cfg(decaf377_verif)]
+impl AffinePoint {
+    pub fn verif_coords(&self) -> (crate::Fq, crate::Fq) {
+        (self.inner.x, self.inner.y)
+    }
+
+    pub fn verif_from_coords(x: crate::Fq, y: crate::Fq) -> AffinePoint {
+        AffinePoint {
+            inner: EdwardsAffine::new_unchecked(x, y),
+        }
+    }
+}
